@@ -106,6 +106,63 @@ pub fn check_det(c: &DetCase) -> CheckResult {
     }))
 }
 
+/// a serde image of a generator with ONE numeric field set to an extreme value (0, all ones of
+/// its width) is a valid value of the type: restoring it and continuing must not panic
+#[derive(Clone, Debug, Serialize, Deserialize)]
+pub struct ExtremeCase {
+    pub spec: GenSpec,
+    pub pre: usize,
+    pub field: usize,
+    pub ones: bool,
+    pub ops: Vec<Op>,
+}
+
+pub fn check_extreme(c: &ExtremeCase) -> CheckResult {
+    let ty = c.spec.ty();
+    let info = ty.info();
+    let mut g = c.spec.build();
+    for _ in 0..c.pre {
+        g.next_native();
+    }
+    let js = match g.json() {
+        Some(j) => j,
+        None => return Ok(CaseInfo::new(false).class("no-serde")),
+    };
+    let mut v: serde_json::Value = serde_json::from_str(&js).unwrap();
+    fn walk<'a>(v: &'a mut serde_json::Value, key: &str, out: &mut Vec<&'a mut serde_json::Value>) {
+        match v {
+            serde_json::Value::Number(_) if key != "index" => out.push(v),
+            serde_json::Value::Array(a) => a.iter_mut().for_each(|x| walk(x, key, out)),
+            serde_json::Value::Object(m) => {
+                for (k, x) in m.iter_mut() {
+                    let k = k.clone();
+                    walk(x, &k, out);
+                }
+            }
+            _ => {}
+        }
+    }
+    let mut leaves = Vec::new();
+    walk(&mut v, "", &mut leaves);
+    if leaves.is_empty() {
+        return Ok(CaseInfo::new(false).class("no-numeric-field"));
+    }
+    let i = c.field % leaves.len();
+    let wide = info.word == 64 && !matches!(info.engine, Engine::Isaac);
+    *leaves[i] = serde_json::Value::from(if c.ones { if wide { u64::MAX } else { u32::MAX as u64 } } else { 0u64 });
+    let mut r = match adapter::from_json(ty, &v.to_string()) {
+        Ok(r) => r,
+        Err(_) => return Ok(CaseInfo::new(false).class("rejected-by-deserialize")),
+    };
+    for op in &c.ops {
+        apply(&mut *r, op);
+    }
+    // and far enough for at least two block refills
+    let mut buf = vec![0u8; 3 * info.block.max(1) * 8];
+    r.fill(&mut buf);
+    Ok(CaseInfo::new(true).class(ty.name()).class(if c.ones { "field=MAX" } else { "field=0" }))
+}
+
 pub fn check_jit(c: &JitCase) -> CheckResult {
     let script = c.prog.script();
     let mut g = adapter::jitter_gen(script, c.rounds0, 3_000_000);
@@ -199,6 +256,40 @@ pub fn def(ctx: &Ctx) -> PropDef {
             check_jit,
         ));
     }
+    for ty in Ty::with_serde() {
+        let info = ty.info();
+        // every numeric field once at 0 and once at all ones (enumerated)
+        subs.push(crate::engine::ESub::boxed(
+            format!("extreme-field-all/{}", ty.name()),
+            600,
+            move || {
+                let g = adapter::seed_from_u64(ty, 99);
+                fn count(v: &serde_json::Value, key: &str) -> usize {
+                    match v {
+                        serde_json::Value::Number(_) if key != "index" => 1,
+                        serde_json::Value::Array(a) => a.iter().map(|x| count(x, key)).sum(),
+                        serde_json::Value::Object(m) => m.iter().map(|(k, x)| count(x, k)).sum(),
+                        _ => 0,
+                    }
+                }
+                let n = g.json().map(|j| count(&serde_json::from_str(&j).unwrap(), "")).unwrap_or(0);
+                let mut v = Vec::new();
+                for field in 0..n {
+                    for ones in [false, true] {
+                        v.push(ExtremeCase { spec: GenSpec::Det { ty, ctor: crate::ops::Ctor::U64(field as u64 + 1) }, pre: if field % 2 == 0 { 0 } else { 5 }, field, ones, ops: vec![Op::U32, Op::U64, Op::Fill(13)] });
+                    }
+                }
+                v
+            },
+            check_extreme,
+        ));
+        subs.push(PSub::boxed(
+            format!("extreme-field/{}", ty.name()),
+            t.pick(if info.block > 0 { 1500 } else { 300 }, 100_000),
+            move || (gens::det_spec(ty, true), gens::pre_advance(&info), 0usize..4096, any::<bool>(), gens::ops(&info, 6, 600, true)).prop_map(|(spec, pre, field, ones, ops)| ExtremeCase { spec, pre, field, ones, ops }).boxed(),
+            check_extreme,
+        ));
+    }
     // long runs past counter-width boundaries (2^16 blocks of the buffered generators; 2^20 words
     // of everything else), mixing the three call kinds
     for ty in Ty::ALL {
@@ -213,6 +304,23 @@ pub fn def(ctx: &Ctx) -> PropDef {
             check_det,
         ));
     }
+    // a stuck timer for a very long time that then recovers: retry counters of any width up to
+    // 2^16 wrap (70 000 consecutive stuck measurements = 210 000 equal readings)
+    subs.push(PSub::boxed(
+        "jitter/long-stuck",
+        t.pick(3, 12),
+        || {
+            (1u64..=1_000_000, prop_oneof![Just(300usize), Just(800usize), Just(70_000usize)], 1u8..=3, any::<u64>(), any::<bool>())
+                .prop_map(|(start, stuck, rounds, salt, zero)| JitCase {
+                    prog: TimerProg { start, segs: vec![gens::Seg::Jitter { n: 9, lo: 50, spread: 40 }, if zero { gens::Seg::Zero { n: 3 * stuck } } else { gens::Seg::Equal { n: 3 * stuck, d: 7 } }], salt },
+                    rounds0: Some(rounds),
+                    ops: vec![JOp::U64, JOp::U32, JOp::U64],
+                    clone_at: None,
+                })
+                .boxed()
+        },
+        check_jit,
+    ));
     // timer_stats on boundary pairs of readings (every power of two, +-1, negated, wrap-around)
     subs.push(PSub::boxed("jitter/timer_stats-pairs", t.pick(20_000, 2_000_000), crate::props::c12::stats_strategy, |c: &crate::props::c12::StatsCase| {
         crate::props::c12::check_stats(c).map(|i| CaseInfo::new(true).class(i.classes.first().cloned().unwrap_or_default()))
